@@ -24,6 +24,8 @@ inductive Rule where
       -- the rule returns hash + 1/2, which is NOT representable in an integer dtype: assignment into the automaton
       -- casts it (NumPy: truncation toward zero). `s2 = 0`: integer dtype; `s2 = scale/2 > 0`: float dtype, where
       -- the value is stored exactly (in scaled units: + s2).
+  | shiftc (k : Nat) (off : Int)
+      -- ((1 << c) mod 1000003 + centre) mod k + off: exact integer arithmetic on the cell index (in 2D: (1 << row) + (1 << col))
   | pulse (k : Nat) (t0 : Nat) (off : Int)
       -- the cell keeps its state, except at step `t0` where it becomes (centre + 1) mod k + off: a rule that is not a
       -- function of the neighbourhood alone (a scheduled perturbation of a resting state, like Sandpile.add_grain)
@@ -51,6 +53,7 @@ def Rule.eval (rl : Rule) (s : St) (n : List Int) (c t : Nat) : Int × St :=
     let h := polyHash a b n % (k : Int) + off
     (if s2 = 0 then (if h ≥ 0 then h else h + 1) else h + s2, s')      -- trunc(h + 1/2) toward zero
   | .pulse k t0 off => (if t = t0 then (centre n + 1) % (k : Int) + off else centre n, s')
+  | .shiftc k off => ((((2 ^ c % 1000003 : Nat) : Int) + centre n) % (k : Int) + off, s')
 
 def Rule.toRule1 (rl : Rule) : Rule1 St Int := fun s n c t => rl.eval s n c t
 
@@ -63,6 +66,7 @@ def parseRule (s : String) : Option Rule :=
   | ["total", k, r] => do pure (.total (← k.toNat?) (← r.toNat?))
   | ["half", k, a, b, off, s2] => do pure (.half (← k.toNat?) (← a.toInt?) (← b.toInt?) (← off.toInt?) (← s2.toInt?))
   | ["pulse", k, t0, off] => do pure (.pulse (← k.toNat?) (← t0.toNat?) (← off.toInt?))
+  | ["shiftc", k, off] => do pure (.shiftc (← k.toNat?) (← off.toInt?))
   | _ => none
 
 /-- Stopping predicates. -/
